@@ -151,6 +151,12 @@ func c11Tokens(c *vrep.Ctx) {
 func c11Match(c *vrep.Ctx) {
 	t, _ := strconv.ParseFloat(c.Param("t", "0.8"), 64)
 	cl := vEmbeddedCached(t)
+	shared := c.Param("shared", "no") == "yes"
+	if shared {
+		// Normalize runs on the SAME classifier that matches (it interns the words it sees in the
+		// classifier's dictionary): a private instance, so that other jobs are not affected
+		cl = vEmbedded(t)
+	}
 	docs := vCorpusFiles()
 	fams := strings.Split(c.Param("families", "exact,scenario,concat"), ",")
 	c.R.Rule = fmt.Sprintf("Match level: every embedded document in OOV context, the scenario files and pool concatenations (families %v): (1) Normalize(in) re-tokenised gives the (word, line) list of in, (2) Match(Normalize(in)) equals Match(in) without Copyright pseudo-matches (names, variants, confidences, token spans, lines); non-trivial = distinct inputs with a license match", fams)
@@ -167,6 +173,9 @@ func c11Match(c *vrep.Ctx) {
 		// Normalize on a separate instance: its only input is the text, and it
 		// must not pollute the dictionary of the classifier used for Match.
 		nc := NewClassifier(t)
+		if shared {
+			nc = cl
+		}
 		norm := nc.Normalize(in)
 		var msgs []string
 		if m := c11Align(in, norm); m != "" {
@@ -174,6 +183,12 @@ func c11Match(c *vrep.Ctx) {
 		}
 		r0 := cl.Match(in)
 		r1 := cl.Match(norm)
+		if shared {
+			// and the original text still matches as it did on a classifier without this history
+			if a, b := vFmt(vEmbeddedCached(t).Match(in)), vFmt(r0); a != b {
+				msgs = append(msgs, fmt.Sprintf("after Normalize calls on this classifier the ORIGINAL text matches as %s, on a fresh classifier as %s", b, a))
+			}
+		}
 		lic := func(res Results) []string {
 			var out []string
 			for _, m := range res.Matches {
